@@ -613,15 +613,19 @@ HX void hx_pa_group_dup(uint64_t mode, uint64_t) {
    vs_assert((rc == 1) == (mode != 2), "the same key in two member handlers is refused (at definition or at evaluation)");
 }
 // C08: every combination of key forms in two member handlers: refused iff they share a short or a long key
-HX void hx_pa_group_keys(uint64_t first, uint64_t second) {
+HX void hx_pa_group_keys(uint64_t first, uint64_t second, uint64_t gmode) {
    static const char* const FIRST[] = {"q", "quiet", "q,quiet"};
    static const char* const SECOND[] = {"q", "quiet", "q,quiet", "x,quiet", "q,other", "x", "other", "x,other", "quiet,x", "other,q"};
    static const bool CLASH[3][10] = { {true, false, true, false, true, false, false, false, false, true},
                                       {false, true, true, true, false, false, false, false, true, false},
                                       {true, true, true, true, true, false, false, false, true, true} };
-   int x = 0, y = 0;
+   int x = 0, y = 0, z = 0;
    int rc = guarded([&] {
+      // gmode: flags the group object passes on to its member handlers (1: 'list argument groups', 2: + usage arguments);
+      // bit 2: a third handler is created between the two and gets an argument of its own
+      if (gmode & 3) Groups::instance(*sink(), *sink(), (gmode & 3) == 1 ? Handler::hfListArgGroups : (Handler::hfListArgGroups | Handler::hfHelpShort | Handler::hfUsageCont));
       auto h1 = Groups::instance().getArgHandler("first", 0);
+      if (gmode & 4) { auto h3 = Groups::instance().getArgHandler("between", 0); h3->addArgument("z,zeta", DEST_VAR(z), "z"); }
       auto h2 = Groups::instance().getArgHandler("second", 0);
       h1->addArgument(FIRST[first], DEST_VAR(x), "x");
       h2->addArgument(SECOND[second], DEST_VAR(y), "y");
